@@ -1036,17 +1036,7 @@ def shrink_case(exe, model, case, pr, what):
 def classify(case, pr, r, prev):
     """narrow classifiers of the findings recorded in KNOWN_FINDINGS.txt; None = not a known root cause.  No open finding at
     present: the earlier ones (yank columns, empty change, sticky left, failed ex command, hll after deleting through the last
-    line, insert mode leaving another xleft) are repaired in /repo; their inputs are corpus cases that must pass."""
-    if pr[0] != 'cmd' or pr[1] == 0 or r.get('status') != 'fail' or not prev or prev.get('top') is None:
-        return None
-    b = bytes.fromhex(case['atoms'][pr[1] - 1]).lstrip(DIGITS)
-    # KF-DRAWFIX-ABOVE: a case/shift operator (same number of lines) whose region starts above the window: vi_drawfix clamps r1
-    # but not n, inserts xtop - r1 lines at row 0 and redraws only n rows
-    op = b[:2] if b[:1] == b'g' else b[:1]
-    if op in (b'g~', b'gu', b'gU', b'>', b'<') and 'the text rows are not a window of the buffer lines' in r['what']:
-        mot = b[len(op):].lstrip(DIGITS)
-        if mot[:1] in (b'k', b'-', b'G', b'{', b'H', b'?') and prev['top'] > 0 and prev.get('xrow') == prev['top'] and r['xrow'] <= prev['xrow']:
-            return 'KF-DRAWFIX-ABOVE'
+    line, insert mode leaving another xleft, same-count change starting above the window) are repaired in /repo; their inputs are corpus cases that must pass."""
     return None
 
 
